@@ -12,7 +12,7 @@ from nix_manipulator.expressions.binding_parser import parse_binding_sequence
 from nix_manipulator.expressions.comment import Comment
 from nix_manipulator.expressions.expression import NixExpression, TypedExpression
 from nix_manipulator.expressions.inherit import Inherit
-from nix_manipulator.expressions.layout import empty_line, linebreak
+from nix_manipulator.expressions.layout import empty_line, linebreak, point_row
 from nix_manipulator.expressions.scope import ScopeLayer, ScopeState
 from nix_manipulator.expressions.set import _collect_attrpath_order, _render_bindings
 from nix_manipulator.expressions.trivia import (
@@ -100,7 +100,7 @@ class LetExpression(TypedExpression):
                     < binding_set.start_byte
                 ):
                     continue
-                if comment_node.start_point.row != let_symbol.end_point.row:
+                if point_row(comment_node.start_point) != point_row(let_symbol.end_point):
                     continue
                 after_let_comment_expr = tree_sitter_node_to_expression(comment_node)
                 assert isinstance(after_let_comment_expr, Comment)
